@@ -125,6 +125,8 @@ def run(prog, rep, tier, cfg):
     CO = X.fn('Actor::collect', CR)
     snd = [c for c in CO.calls if sendsmod.is_send(c)]
     dele = [c.bb for c in CO.calls if (c.defp or '') == RUNTIME + 'delete_actor']
+    nx = sendsmod.exit_code_rule(X, rep, sendsmod.all_sends(prog, crates=(CR,)), {})
+    rep.floor('K8', 'paych_send_sites_exit_code', nx, 4)
     rep.need('K5', 'collect:sends', len(snd) == 2 and len(dele) == 1, 'collect must make two sends and delete the actor (found %d, %d)' % (len(snd), len(dele)), X.loc(CO))
     eff = [c.bb for c in snd] + dele
     X.guard('K6b', 'collect:settling', CO, eff, m_rel('eq', ['F:State.settling_at'], ['V:0'], False), 'settling_at == 0 => Err')
